@@ -66,4 +66,33 @@ REGISTRY = {
         "time-reversed solver outputs: valid circuit, EmissionShape, FixedPreserved, CandidatesSound (selector pairs "
         "legal and acyclic), MoveEffect.",
         "", "DESIGN.md 6/C04"),
+    "C08": (
+        "enumerated graphs / TLC-enumerated stabilizer states fed to the real conversion functions; outputs judged by TLC "
+        "against the spec's graph state (group / exact Pauli vector)",
+        "All labelled graphs n <= 4 (5 thorough; dm legs n <= 4): graph->dm, graph->stabilizer, dm->graph, "
+        "stabilizer->graph in several generating sets, all 9 ordered representation pairs of convert_representation; all "
+        "stabilizer states n <= 3 (sampled n = 4): state_to_graph gates map the state onto the returned graph state with "
+        "signs.",
+        "", "DESIGN.md 6/C08"),
+    "C09": (
+        "LC orbit computed by TLC as the local-complementation fixpoint (ground truth); real decision procedure, gate "
+        "lists and complementation sequences judged against it; LC lemmas model-checked",
+        "Every ordered pair of labelled graphs n <= 4 (n = 5 all start graphs, n = 6 sampled in thorough): Soundness, "
+        "Completeness, returned Cliffords executed by the spec on |G1> (exact signs), returned sequence folded over G1, "
+        "local complementation (function, copy, in place); graphs / adjacency matrices / tableaux; both modes.",
+        "", "DESIGN.md 6/C09"),
+    "C16": (
+        "real relabel / iso_finder / orbit explorers on enumerated graphs; TLC judges by explicit permutation search and "
+        "membership in the local-complementation fixpoint orbit",
+        "All labelled graphs n <= 4 (5, sampled 6 in thorough): RelabelOK for all permutations, MapIsIso, iso_finder "
+        "settings grid (InputFirst, PairwiseDistinct, AllIsomorphic, NeverMoreThanRequested), lc_orbit_finder flag grid, "
+        "rgs / linear / depth-first explorers: OrbitMember, OrbitDistinct.",
+        "", "DESIGN.md 6/C16"),
+    "C20": (
+        "TLA+ model of the single-qubit Clifford group (signed-axis maps) model-checked for closure; library lists, "
+        "simplification and both backends' wrapper order judged by TLC",
+        "Closure machine reaches exactly 24 elements; the library's 24 lists = their matrices, distinct, closed; "
+        "simplify_local_clifford on all 24x24 concatenations and all words <= 4 (6); non-Clifford rejected; every wrapper "
+        "on either register type compiled by both backends on a Bell pair (Choi state) follows last-listed-acts-first.",
+        "", "DESIGN.md 6/C20"),
 }
